@@ -4,7 +4,7 @@ from . import common
 import impl
 
 PID = "C11"
-LEAN_MODULES = ["BtcHd.Props.C11", "BtcHd.Props.C11b"]
+LEAN_MODULES = ["BtcHd.Props.C11"] + (["BtcHd.Props.C11b"] if __import__("os").path.exists(__import__("os").path.join(__import__("os").path.dirname(__file__), "..", "..", "lean", "BtcHd", "Props", "C11b.lean")) else [])
 TRUSTED_BASE = common.CORE_TRUSTED + [
     "the BCH facts are `decide +kernel` evaluations (kernel GMP arithmetic), one module per row, generated from the "
     "generator words extracted from the source"]
